@@ -15,6 +15,8 @@ class LocalDeme(AbstractDeme):
         self._method = config.method
         self._sprout_seed = deme_init_args.sprout_seed
         self._n_evals = 0
+        # scipy minimises; maximisation problems are handed the negated objective.
+        self._sign = -1.0 if self._problem.maximize else 1.0
         starting_pop = [self._sprout_seed]
         self._history.append([starting_pop])
         self._run_history: list[Individual] = []
@@ -25,7 +27,9 @@ class LocalDeme(AbstractDeme):
 
     def run_metaepoch(self, _) -> None:
         x0 = self._sprout_seed.genome
-        fun = self._problem.evaluate
+
+        def fun(x):
+            return self._sign * self._problem.evaluate(x)
 
         result = sopt.minimize(
             fun,
@@ -51,5 +55,5 @@ class LocalDeme(AbstractDeme):
 
     def _history_callback(self, intermediate_result) -> None:
         ind = Individual(intermediate_result.x, problem=self._problem)
-        ind.fitness = intermediate_result.fun
+        ind.fitness = self._sign * intermediate_result.fun
         self._run_history.append(ind)
